@@ -111,6 +111,10 @@ func main() {
 		runRedact()
 	case "names":
 		runNames()
+	case "race":
+		runRace()
+	case "loop":
+		runLoop()
 	default:
 		fmt.Fprintln(os.Stderr, "unknown mode")
 		os.Exit(3)
